@@ -54,6 +54,7 @@ func LakeBuild(targets ...string) (bool, string) {
 	run := func() (bool, string) {
 		cmd := exec.Command("lake", append([]string{"build"}, targets...)...)
 		cmd.Dir = LeanDir()
+		cmd.Env = OrigEnv
 		var buf bytes.Buffer
 		cmd.Stdout = &buf
 		cmd.Stderr = &buf
@@ -100,6 +101,7 @@ func Audit(modules []string, theorems []string) (map[string][]string, string, st
 	defer os.Remove(f.Name())
 	cmd := exec.Command("lake", "env", "lean", f.Name())
 	cmd.Dir = LeanDir()
+	cmd.Env = OrigEnv
 	var buf bytes.Buffer
 	cmd.Stdout = &buf
 	cmd.Stderr = &buf
@@ -198,6 +200,7 @@ func runDriver1(lines []string) ([]string, error) {
 	}
 	exe := filepath.Join(LeanDir(), ".lake", "build", "bin", "driver")
 	cmd := exec.Command(exe)
+	cmd.Env = OrigEnv
 	cmd.Stdin = strings.NewReader(strings.Join(lines, "\n") + "\n")
 	var out, errb bytes.Buffer
 	cmd.Stdout = &out
